@@ -74,6 +74,19 @@ def build_pool(rng, dim, **kw):
     raise RuntimeError("no pool in general position")
 
 
+def _regular(ms):
+    """Symmetric integer matrices made regular (a dual quadric needs an inverse): singular ones get a multiple of the identity added."""
+    ms = np.array(ms)
+    n = ms.shape[-1]
+    flat = ms.reshape(-1, n, n)
+    for k in range(len(flat)):
+        j = 1
+        while abs(np.linalg.det(flat[k])) < 0.5:
+            flat[k] = flat[k] + j * np.eye(n, dtype=flat.dtype)
+            j += 1
+    return flat.reshape(ms.shape)
+
+
 def _build_pool(rng, dim, with_collections=True, with_polytopes=True, with_quadrics=True, with_transforms=True, cshape=(3,), hostile_scales=False):
     """A pool of finite, real, mostly integer-coordinate objects in general position of the given dimension (2 or 3)."""
     import geometer as g
@@ -168,10 +181,12 @@ def _build_pool(rng, dim, with_collections=True, with_polytopes=True, with_quadr
             m = m + m.T + np.diag([5, -7, 3])
             pool.append(("conic0", g.Conic(m)))
             pool.append(("dconic0", g.Conic.from_lines(g.Line(1, 2, 3), g.Line(2, -1, 1))))
+            pool.append(("dualconic0", g.Conic(m + np.diag([2, 0, -1]), is_dual=True)))  # a dual conic (a set of tangent lines)
             if with_collections:
                 qs = gen.coords(rng, cshape + (3, 3), 3, "int")
                 qs = qs + np.swapaxes(qs, -1, -2) + np.diag([5, -7, 3])
                 pool.append(("qc0", g.QuadricCollection(qs)))
+                pool.append(("dualqc0", g.QuadricCollection(_regular(qs + np.diag([1, 2, 0])), is_dual=True)))
         else:
             pool.append(("sph0", g.Sphere(g.Point(1, -1, 2), 3)))
             m = gen.coords(rng, (4, 4), 3, "int")
@@ -179,10 +194,12 @@ def _build_pool(rng, dim, with_collections=True, with_polytopes=True, with_quadr
             pool.append(("quad0", g.Quadric(m)))
             pool.append(("cone0", g.Cone(g.Point(0, 1, 0), g.Point(1, 2, 3), 2)))
             pool.append(("cyl0", g.Cylinder(g.Point(1, 0, 0), g.Point(1, 1, 2), 1.5)))
+            pool.append(("dualquad0", g.Quadric(m + np.diag([2, 0, -1, 1]), is_dual=True)))  # a dual quadric (a set of tangent planes)
             if with_collections:
                 qs = gen.coords(rng, cshape + (4, 4), 3, "int")
                 qs = qs + np.swapaxes(qs, -1, -2) + np.diag([5, -7, 3, 2])
                 pool.append(("qc0", g.QuadricCollection(qs)))
+                pool.append(("dualqc0", g.QuadricCollection(_regular(qs + np.diag([1, 2, 0, 1])), is_dual=True)))
     if with_transforms:
         m = gen.invertible_int_matrix(rng, n, 2)
         pool.append(("t0", g.Transformation(m)))
